@@ -12,9 +12,11 @@ pub enum L {
     Es,
     /// a line of `n + 1` spaces: a *text* line whose text is one space
     S,
+    /// empty line that carries exactly `n` spaces (the full indentation and nothing else)
+    En,
 }
 
-pub const MENU: [L; 10] = [L::T("a"), L::T("b c"), L::T(" x"), L::T("\ty"), L::E, L::Es, L::T("- z"), L::T("k: v"), L::T("# n"), L::S];
+pub const MENU: [L; 11] = [L::T("a"), L::T("b c"), L::T(" x"), L::T("\ty"), L::E, L::Es, L::T("- z"), L::T("k: v"), L::T("# n"), L::S, L::En];
 pub const LONG_MENU: [L; 4] = [L::T("aaaaaaaaaaaaaaa"), L::T("aaaaaaaaaaaaaaaa"), L::T("aaaaaaaaaaaaaaaaa"), L::T("aaaaaaaaaaaaaaaaaaaaaaaaaaaaaaaaaaaaaaaaaaaaaaaaaaaaaaaaaaaaaaaaaaaaaaaaaaaaaaaaaaaaaaaaaaaaaaaaaaaaaaaaaaaaaaaaaaaaaaaaaaaaaaaaaaaaaaaaaa é")];
 
 /// The text the scalar denotes. chomp: 0 strip, 1 clip, 2 keep.
@@ -140,7 +142,7 @@ pub fn render(lines: &[L], c: &Cfg) -> Option<Rendered> {
         // a space, and no earlier line may be longer than it
         match first_text {
             None => {
-                if lines.iter().any(|l| matches!(l, L::S)) {
+                if lines.iter().any(|l| matches!(l, L::S | L::En)) {
                     return None;
                 }
             }
@@ -195,6 +197,11 @@ pub fn render(lines: &[L], c: &Cfg) -> Option<Rendered> {
                     s.push(' ');
                 }
             }
+            L::En => {
+                for _ in 0..n {
+                    s.push(' ');
+                }
+            }
             L::S => {
                 for _ in 0..n + 1 {
                     s.push(' ');
@@ -226,7 +233,7 @@ pub fn render(lines: &[L], c: &Cfg) -> Option<Rendered> {
                 return None; // identical to a shorter list with a final break
             }
             // declined zone: keep + a final spaces-only line without a break
-            if matches!(lines[nl - 1], L::Es) && c.chomp == 2 {
+            if matches!(lines[nl - 1], L::Es | L::En) && c.chomp == 2 {
                 return None;
             }
         }
@@ -236,7 +243,7 @@ pub fn render(lines: &[L], c: &Cfg) -> Option<Rendered> {
         }
         3 => {
             // declined zone: content-less scalar at document level with spaces-only lines + marker
-            if !has_text && c.ctx <= 1 && lines.iter().any(|l| matches!(l, L::Es)) {
+            if !has_text && c.ctx <= 1 && lines.iter().any(|l| matches!(l, L::Es | L::En)) {
                 return None;
             }
             s.push_str("...\n");
